@@ -83,6 +83,8 @@ type objRT struct {
 	stopped     bool
 	delDepth    int
 	p, d        int
+	dDone       int  // OnDemote callbacks that have returned
+	byCancel    bool // the latest completed stop was a cancellation of the Start context
 	gauge       float64
 	gaugeSet    bool
 	lastEdge    bool
@@ -225,7 +227,9 @@ func (s *Sim) registerCallbacks(o *objRT) {
 		s.mu.Lock()
 		term.Exited = true
 		term.ExitT = s.now()
-		s.tr.CBs = append(s.tr.CBs, &CB{Seq: s.nextSeq(), T: term.ExitT, Obj: o.idx, Inst: o.in.idx, Kind: "promote-exit", Token: token, Term: term.ID})
+		term.ExitSeq = s.nextSeq()
+		term.CtxDoneAtExit = ctx.Err() != nil
+		s.tr.CBs = append(s.tr.CBs, &CB{Seq: term.ExitSeq, T: term.ExitT, Obj: o.idx, Inst: o.in.idx, Kind: "promote-exit", Token: token, Term: term.ID})
 		s.mu.Unlock()
 	})
 	o.el.OnDemote(func() {
@@ -244,6 +248,7 @@ func (s *Sim) registerCallbacks(o *objRT) {
 		s.mu.Unlock()
 		s.sleepI(sp.DemoteDur)
 		s.mu.Lock()
+		o.dDone++
 		s.tr.CBs = append(s.tr.CBs, &CB{Seq: s.nextSeq(), T: s.now(), Obj: o.idx, Inst: o.in.idx, Kind: "demote-exit"})
 		s.mu.Unlock()
 	})
@@ -432,10 +437,29 @@ func (s *Sim) doAction(a *Action) {
 			}()
 		}
 		s.apiEnd(o, r, err == nil, err)
-	case ActStop, ActStopCtx:
+	case ActStop, ActStopCtx, ActCancelCtx:
 		o := s.current(a.Inst)
 		if o == nil {
 			return
+		}
+		var cancelStart context.CancelFunc
+		if a.Kind == ActCancelCtx {
+			// "If the context is cancelled, the election will stop gracefully" (Start's documentation):
+			// recorded as a Stop call that lasts from the cancellation until the election reports no leadership
+			// and its OnDemote (if it led) has returned; the state it is left in is FOLLOWER (the pinned suite's
+			// TestWatcherStopsOnContextCancel demands that of a cancelled follower), not STOPPED
+			s.mu.Lock()
+			cancelStart = o.startCancel
+			s.mu.Unlock()
+			if cancelStart == nil {
+				return
+			}
+			if a.NoWait {
+				r := s.apiBegin(o, "CancelStartContext", a)
+				cancelStart()
+				s.apiEnd(o, r, true, nil)
+				return
+			}
 		}
 		call := "Stop"
 		if a.Kind == ActStopCtx {
@@ -454,7 +478,24 @@ func (s *Sim) doAction(a *Action) {
 		}
 		s.mu.Unlock()
 		var err error
-		if a.Kind == ActStop {
+		if a.Kind == ActCancelCtx {
+			cancelStart()
+			limit := s.now() + 5*time.Second + o.in.spec.DemoteDur + 2*time.Second
+			for {
+				st := o.el.Status()
+				s.mu.Lock()
+				balanced := o.p == o.dDone
+				s.mu.Unlock()
+				if !st.IsLeader && balanced {
+					break
+				}
+				if s.now() > limit || s.tearing.Load() {
+					err = fmt.Errorf("election not stopped %v after its Start context was cancelled: state=%s IsLeader=%v", s.now()-r.CallT, st.State, st.IsLeader)
+					break
+				}
+				s.sleepI(time.Millisecond)
+			}
+		} else if a.Kind == ActStop {
 			err = o.el.Stop()
 		} else {
 			ctx, cancel := s.mkCtx(a)
@@ -471,6 +512,7 @@ func (s *Sim) doAction(a *Action) {
 		}
 		if err == nil && o.startGen == sg {
 			o.stopped = true
+			o.byCancel = a.Kind == ActCancelCtx
 		}
 		if err != nil && err != leader.ErrAlreadyStopped {
 			o.stopFailed = true
@@ -518,19 +560,6 @@ func (s *Sim) doAction(a *Action) {
 		ok := o.el.ValidateTokenOrDemote(ctx)
 		cancel()
 		s.apiEnd(o, r, ok, nil)
-	case ActCancelCtx:
-		o := s.current(a.Inst)
-		if o == nil {
-			return
-		}
-		s.mu.Lock()
-		c := o.startCancel
-		s.mu.Unlock()
-		if c != nil {
-			r := s.apiBegin(o, "CancelStartContext", a)
-			c()
-			s.apiEnd(o, r, true, nil)
-		}
 	case ActCloseWatch:
 		s.mu.Lock()
 		for _, lw := range s.watchers {
@@ -628,7 +657,7 @@ func (s *Sim) snapshot(why string) {
 	for _, o := range objs {
 		st := o.el.Status()
 		s.mu.Lock()
-		si := SnapInst{Inst: o.in.idx, Obj: o.idx, Gen: o.gen, Started: o.started, InStop: o.inStop > 0, Stopped: o.stopped,
+		si := SnapInst{Inst: o.in.idx, Obj: o.idx, Gen: o.gen, Started: o.started, InStop: o.inStop > 0, Stopped: o.stopped, ByCancel: o.byCancel,
 			State: st.State, StIsLeader: st.IsLeader, StLeaderID: st.LeaderID, StToken: st.Token, Revision: st.Revision,
 			IsLeader: o.el.IsLeader(), LeaderID: o.el.LeaderID(), Token: o.el.Token(),
 			Gauge: o.gauge, GaugeSet: o.gaugeSet, P: o.p, D: o.d, OpsInFlight: o.opsInFlight}
